@@ -192,3 +192,38 @@ func (c *CasesFile) WriteTo(dir, name string) {
 		fatal("%v", err)
 	}
 }
+
+// WriteShards writes the model cases in shards of `shard` cases each (files Cases_<prop>_<k>.v),
+// every shard carrying the same preamble; the check evaluates them in parallel and
+// maps mismatch indexes back through Extra["groups"].
+func WriteShards(res *Result, outDir, prop, imports, preamble, typ, okExpr string, lines []string, shard int) {
+	WriteShardsFn(res, outDir, prop, imports, func(int, int) string { return preamble }, typ, okExpr, lines, shard)
+}
+
+// WriteShardsFn is WriteShards with a preamble computed per shard (e.g. the oracle tables
+// restricted to the cases of that shard).
+func WriteShardsFn(res *Result, outDir, prop, imports string, preamble func(start, end int) string, typ, okExpr string, lines []string, shard int) {
+	if shard <= 0 {
+		shard = len(lines) + 1
+	}
+	var groups []map[string]interface{}
+	k := 0
+	for start := 0; start < len(lines) || k == 0; start += shard {
+		end := start + shard
+		if end > len(lines) {
+			end = len(lines)
+		}
+		cf := NewCasesFile(imports)
+		cf.Raw(preamble(start, end))
+		cf.Raw("Definition cases : list " + typ + " := [\n  " + joinLines(lines[start:end]) + "].\n")
+		cf.Raw("Definition M := Eval vm_compute in mismatches (" + okExpr + ") cases.\nPrint M.\n")
+		name := fmt.Sprintf("Cases_%s_%03d.v", prop, k)
+		cf.WriteTo(outDir, name)
+		groups = append(groups, map[string]interface{}{"file": name, "sizes": []int{end - start}})
+		k++
+		if end >= len(lines) {
+			break
+		}
+	}
+	res.Extra["groups"] = groups
+}
